@@ -194,16 +194,23 @@ func errorChainToMain(c *an.Ctx, r *runnerRoles, rule string) {
 		c.Und(rule, "scheduler:runner-caller", token.NoPos, "cannot find Scheduler.Schedule and the function of pkg/scheduler that invokes Runner.Run")
 		return
 	}
-	exempt := map[string]string{
-		"(*internal/watch.Watcher).handle:err((*pkg/runner.TaskRunner).Run)": "watch mode: a failed event run is logged and the watcher keeps serving (C20.5); not a CLI target",
-		"(*internal/watch.Watcher).Run$1:err((*pkg/runner.TaskRunner).Run)":  "watch mode: the initial run's failure is logged; not a CLI target",
-		"cmd/taskctl.newWatchCommand$2$2:err((*internal/watch.Watcher).Run)": "watch mode: a watcher's failure is logged by its goroutine; not a CLI target",
+	exempt := map[string]string{}
+	// watch mode is not a CLI target: inside internal/watch a failed run is logged and the watcher keeps
+	// serving (C20.5); a watcher's own failure is logged by the goroutine the watch command starts for it
+	watchMode := func(caller, callee *ssa.Function) string {
+		if inPkgs("internal/watch")(caller) {
+			return "watch mode: a failed run is logged and the watcher keeps serving (C20.5); not a CLI target"
+		}
+		if inPkgs("internal/watch")(callee) {
+			return "watch mode: a watcher's failure is logged by its goroutine; not a CLI target"
+		}
+		return ""
 	}
 	// the function that records a stage's error as the run's error hands it to Schedule's caller (C02.2 / C02.4)
 	for _, rec := range findErrorRecorders(p) {
 		exempt[an.Short(rec)+":err("+an.Short(runStage)+")"] = "the stage's error is recorded as the run's error, which Schedule returns (decided by C02.2 / C02.4)"
 	}
-	chain := errChain(c, rule, []*ssa.Function{r.execute, schedule}, nil, exempt)
+	chain := errChainX(c, rule, []*ssa.Function{r.execute, schedule}, nil, exempt, watchMode)
 	// two facts of C02.4 are premises of this chain: restated here
 	if last := p.Func("pkg/scheduler", "ExecutionGraph", "LastError"); last != nil {
 		okLast := true
